@@ -42,7 +42,7 @@ class World(object):
 
 
 class SetModel(explorer.Model):
-    limit_s = 20.0
+    limit_s = 5.0
 
     def __init__(self, clsname, usize, seed):
         self.clsname = clsname
@@ -408,7 +408,10 @@ def unit_test(model, hist, op):
 
 def models(ctx):
     usize = 3 if ctx.quick else 5
-    return [SetModel('OrderedSet', usize, ctx.seed), SetModel('QuerySet', usize, ctx.seed)]
+    ms = [SetModel('OrderedSet', usize, ctx.seed), SetModel('QuerySet', usize, ctx.seed)]
+    for m in ms:
+        m.limit_s = 5.0 if ctx.quick else 40.0
+    return ms
 
 
 def run(ctx):
@@ -417,7 +420,8 @@ def run(ctx):
         res = explorer.bfs(ctx, m, chunk=2, label=m.clsname)
         total_states += res['states']
         ctx.notes[m.clsname + '_closed'] = res['closed']
-        ctx.sample(dict(cls=m.clsname, state_history=sorted(res['seen'].values(), key=lambda h: (len(h), repr(h)))[-1]))
+        if res['seen']:
+            ctx.sample(dict(cls=m.clsname, state_history=sorted(res['seen'].values(), key=lambda h: (len(h), repr(h)))[-1]))
     n_expected = len(ordered_subsets(list(range(3 if ctx.quick else 5))))
     ctx.require(total_states >= 2 * n_expected, 'fewer states than ordered subsets (%d < %d)' % (total_states, 2 * n_expected))
     ctx.require(ctx.nd('outcomes') >= 40, 'too few distinct outcomes (%d)' % ctx.nd('outcomes'))
